@@ -564,6 +564,7 @@ def inventory(fn, rule, items, metas, root=None, fixed=None, required=True, orde
         for inst, pat, src in pats:
             fn.ob(rule, inst, True, best['matched'].get(inst, fn.ast), key=inst)
         _params_not_replaced(fn, rule, best['matched'], rebind_ok)
+        context_obligations(fn, rule, best['matched'], best['binding'], root)
         out = dict(best['binding'])
         out['__matched__'] = dict(best['matched'])
         return out
@@ -591,6 +592,126 @@ def inventory(fn, rule, items, metas, root=None, fixed=None, required=True, orde
     out = dict(binding)
     out['__matched__'] = dict(matched)
     return out
+
+
+# ---------------------------------------------------------------------------------------------
+# CONTEXT: the conditions under which a documented statement runs
+# ---------------------------------------------------------------------------------------------
+_EQ_NEG = {'Eq': 'NotEq', 'NotEq': 'Eq', 'Is': 'IsNot', 'IsNot': 'Is', 'In': 'NotIn', 'NotIn': 'In'}
+
+
+def _literals(nf, pol, out):
+    """Split a test (normal form) with a polarity into atomic literals.  Order comparisons are not
+    negated into their complement (they differ on NaN); equality / identity / membership are."""
+    if isinstance(nf, tuple) and nf:
+        h = nf[0]
+        if h == 'not':
+            return _literals(nf[1], not pol, out)
+        if h == 'truth':
+            return _literals(nf[1], pol, out)
+        if (h == 'and' and pol) or (h == 'or' and not pol):
+            for x in nf[1:]:
+                _literals(x, pol, out)
+            return
+        if h == 'cmp' and nf[1] in _EQ_NEG and not pol:
+            return _literals(sym.mk_cmp(_EQ_NEG[nf[1]], nf[2], nf[3]), True, out)
+    out.add((nf, pol))
+
+
+def _abstract(nf, inv, locals_):
+    """Replace bound local names by their role names and other locals by `_`; re-sort AC operands."""
+    if isinstance(nf, tuple):
+        if len(nf) == 2 and nf[0] == 'var' and isinstance(nf[1], str):
+            nm = nf[1][:-4] if nf[1].endswith('#phi') else nf[1]
+            if nm in inv:
+                return ('var', '$' + inv[nm])
+            if nm in locals_:
+                return ('var', '_')
+            return nf
+        t = tuple(_abstract(x, inv, locals_) for x in nf)
+        if t and t[0] in ('add', 'mul') and len(t) == 2 and isinstance(t[1], tuple):
+            return (t[0], tuple(sorted(t[1], key=repr)))
+        if t and t[0] in ('and', 'or'):
+            return (t[0],) + tuple(sorted(t[1:], key=repr))
+        if t and t[0] == 'cmp' and t[1] in ('Eq', 'NotEq') and repr(t[2]) > repr(t[3]):
+            return ('cmp', t[1], t[3], t[2])
+        return t
+    return nf
+
+
+def run_context(fn, st, binding=None, resolved=True):
+    """Sorted literals describing when `st` runs: tests whose outcome dominates it (guard clauses that
+    leave count through the false outcome), enclosing try bodies / handlers."""
+    node = fn.cfg.node_containing(st)
+    if node is None:
+        return None
+    inv = {}
+    for m, v in (binding or {}).items():
+        if isinstance(v, tuple) and len(v) == 2 and v[0] == 'var' and isinstance(v[1], str) and not m.startswith('__'):
+            inv.setdefault(v[1], m)
+    locs = getattr(fn, '_local_names', None)
+    if locs is None:
+        locs = {n.id for n in fn.walk(None, into_nested=True) if isinstance(n, ast.Name) and isinstance(n.ctx, ast.Store)}
+        locs |= {a.arg for f_ in fn.walk(None, into_nested=True) if isinstance(f_, (ast.Lambda, ast.FunctionDef)) and f_ is not fn.ast
+                 for a in f_.args.args}
+        locs -= set(fn.params)
+        fn._local_names = locs
+    lits = set()
+    for g in fn.stmts((ast.If, ast.While)):
+        if g is st or id(g) not in fn.cfg.assume:
+            continue
+        a_t, a_f = fn.cfg.assume[id(g)]
+        pol = None
+        if fn.cfg.dominates(a_t, node):
+            pol = True
+        elif fn.cfg.dominates(a_f, node):
+            pol = False
+        if pol is None:
+            continue
+        tnf = sym.norm(g.test)
+        if resolved:
+            try:
+                r_ = sym.Normalizer(resolver=fn.resolver(g)).n(g.test)
+                if '#phi' not in repr(r_):
+                    tnf = r_
+            except AnalysisError:
+                pass
+        _literals(tnf, pol, lits)
+    out = set()
+    for nf, pol in lits:
+        out.add(('when ' if pol else 'unless ') + sym.show(_abstract(nf, inv, locs)))
+    prev = st
+    for a in fn.ancestors(st):
+        if isinstance(a, (ast.FunctionDef, ast.Lambda)):
+            break
+        if isinstance(a, ast.Try):
+            if any(prev is x for x in a.body):
+                out.add('inside try catching [%s]' % ', '.join(sorted(
+                    '/'.join(sorted(handler_types(h))) if h.type is not None else 'everything' for h in a.handlers)))
+        if isinstance(a, ast.ExceptHandler):
+            out.add('inside handler of [%s]' % ('/'.join(sorted(handler_types(a))) if a.type is not None else 'everything'))
+        prev = a
+    return sorted(out)
+
+
+def context_obligations(fn, rule, matched, binding, root=None):
+    """CONTEXT: each documented statement, and each return of the function, runs under the conditions
+    recorded for it in flowlint/contexts.json (frozen from the reviewed tree by tools/freeze_contexts.py)."""
+    cx = fn.cx
+    for inst, st in matched.items():
+        ctx = run_context(fn, st, binding, resolved=False)
+        if ctx is None:
+            continue
+        cx.context_ob(fn, rule, inst, st, {'as written': ctx, 'resolved': run_context(fn, st, binding, resolved=True)})
+    rets = [r for r in fn.walk(root, into_nested=False) if isinstance(r, ast.Return)]
+    tables = {}
+    for reading in ('as written', 'resolved'):
+        table = tables.setdefault(reading, {})
+        for r in rets:
+            c = run_context(fn, r, binding, resolved=(reading == 'resolved'))
+            if c is not None:
+                table.setdefault(' & '.join(c) or 'always', []).append(r)
+    cx.context_returns(fn, rule, tables)
 
 
 def _params_not_replaced(fn, rule, matched, rebind_ok=()):
